@@ -44,7 +44,7 @@ MAX_OVERFLOW = 1
 RECYCLE = 2
 
 OPNAMES = ["checkout", "checkin", "invalidate", "soft_invalidate", "pool_invalidate", "engine_dispose", "tick",
-           "drop_gc", "server_restart"]
+           "drop_gc", "server_restart", "detach", "pool_invalidate_detached"]
 
 
 class _Clock:
@@ -73,6 +73,7 @@ class _Clock:
 
 
 _WHY: List[str] = []  # reason of the last oracle failure (read by classify after a concrete re-run)
+_LASTLOG: List[List[str]] = []  # per-connection DBAPI call logs of the last run (for classify)
 
 
 def _no(reason: str) -> bool:
@@ -80,11 +81,43 @@ def _no(reason: str) -> bool:
     return False
 
 
+class _Interrupt(KeyboardInterrupt):
+    """Fault kind 2: a BaseException that is not an Exception (KeyboardInterrupt, gevent Timeout, ...)."""
+
+
+def _run(fn) -> str:
+    """Run ONE operation under test.  -> "ok" | "error" (an Exception surfaced to the caller) | "interrupt" (the
+    injected BaseException surfaced).  Nothing else is caught: in particular no control-flow exception of the
+    symbolic engine."""
+    try:
+        fn()
+    except _Interrupt:
+        return "interrupt"
+    except Exception as e:
+        if type(e).__module__.split(".")[0] == "crosshair" or type(e).__name__ == "Assume":
+            raise
+        return "error"
+    return "ok"
+
+
 class _Conn(fakedb.FakeConnection):
     def close(self):
         # the ledger records that the pool *asked* to close, even if the close call itself is made to fail
-        self.server.state[self.id] = "closed"
-        super().close()
+        # (whether the connection then really is closed is ``self.closed``)
+        if self.server.state[self.id] == "open":
+            self.server.state[self.id] = "closed"
+        try:
+            super().close()
+        except _Interrupt:
+            # the close call was interrupted before it did anything: the connection is in fact still open and
+            # healthy; the pool did attempt to close it (no leak), and using it again is harmless
+            self.server.close_interrupted[self.id] = True
+            raise
+
+
+def _unusable(srv, c) -> bool:
+    """May connection ``c`` not be handed out / sit idle any more?  (really closed, or the pool closed it)"""
+    return c.closed or (srv.state[c.id] != "open" and not srv.close_interrupted[c.id])
 
 
 class _Srv(fakedb.FakeServer):
@@ -99,6 +132,7 @@ class _Srv(fakedb.FakeServer):
         self.t_open: List[int] = []
         self.gen: List[int] = []
         self.handed: List[bool] = []  # was ever handed to a holder
+        self.close_interrupted: List[bool] = []
         self.oplog: List[List[str]] = []  # DBAPI calls seen by each connection ("!" = a fault was injected)
         self.refs: list = []
         self.cur_gen = 0
@@ -115,9 +149,14 @@ class _Srv(fakedb.FakeServer):
             elif n == self.k2:
                 kind = self.kind2
             if kind is not None:
+                # kind: <=0 ordinary DBAPI error, 1 disconnect (connection dead afterwards), >=2 BaseException
+                if kind >= 2:
+                    if conn is not None:
+                        self.oplog[conn.id][-1] = op + "!!"
+                    raise _Interrupt("fake: interrupted in " + op)
                 if conn is not None:
                     self.oplog[conn.id][-1] = op + "!"
-                if kind:
+                if kind == 1:
                     if conn is not None:
                         conn.dead = True
                     raise fakedb.OperationalError("fake: disconnect")
@@ -132,6 +171,7 @@ class _Srv(fakedb.FakeServer):
         self.t_open.append(self.clock.last)
         self.gen.append(self.cur_gen)
         self.handed.append(False)
+        self.close_interrupted.append(False)
         self.oplog.append(["connect"])
         self.refs.append(weakref.ref(c))
         return c
@@ -139,7 +179,7 @@ class _Srv(fakedb.FakeServer):
     def restart(self):
         for r in self.refs:
             c = r()
-            if c is not None and self.state[c.id] == "open":
+            if c is not None and not c.closed:
                 c.dead = True
 
 
@@ -155,14 +195,17 @@ def _bpick(v, lo: int, hi: int) -> int:
     return lo
 
 
-def _alphabet(nholders: int, recycle: int, prof: int):
-    """(op, holder index).  prof 0: full; 1: without server_restart and drop_gc."""
+def _alphabet(nholders: int, recycle: int, prof: int, ndetached: int = 0):
+    """(op, index).  prof 0: full; 1: without server_restart and drop_gc.  Ops 1-4, 7, 9 act on live holder w;
+    10 = Pool._invalidate(detached fairy d, exc) -- a connection that has no pool record any more."""
     ops = [(0, 0)]
     for w in range(nholders):
-        for o in (1, 2, 3, 4, 7):
+        for o in (1, 2, 3, 4, 7, 9):
             if prof == 1 and o == 7:
                 continue
             ops.append((o, w))
+    for d in range(ndetached):
+        ops.append((10, d))
     ops.append((5, 0))
     if recycle > -1:
         ops.append((6, 0))
@@ -202,17 +245,29 @@ def _counters_ok(eng, pools, srv, holders) -> bool:
     return True
 
 
+def _abandon(h) -> None:
+    """The holder forgets its fairy (no further call on it): whatever is still checked out is returned by the weakref
+    finalizer.  Returns None so that the caller can clear its own variable: ``h = _abandon(h)``."""
+    r = weakref.ref(h.fairy)
+    h.fairy = None
+    if r() is not None:
+        gc.collect()
+    if r() is not None:
+        _run(r().close)  # something else keeps it alive: release it the ordinary way
+    return None
+
+
 def _checkout(eng, srv, clock, holders, soft_inv, stale_before, recycle):
     """One checkout.  Returns a holder, None (the checkout raised: errors surface to the caller), or False
     (oracle violated)."""
     t0 = clock.now
     inv0 = eng.pool._invalidate_time
-    try:
-        f = eng.raw_connection()
-    except Exception:
+    box = []
+    if _run(lambda: box.append(eng.raw_connection())) != "ok":
         return None
+    f = box.pop()
     c = f.dbapi_connection
-    if c is None or srv.state[c.id] != "open":
+    if c is None or _unusable(srv, c):
         return _no("handed-out:closed-connection")
     for h in holders:
         if h.conn is c and h.fairy.dbapi_connection is c:
@@ -265,8 +320,9 @@ def _history(n, prof, pre, pre_ping, recycle, amb, a0, b1, codes, dts, k1, kind1
         if not _counters_ok(eng, pools, srv, holders):
             return False
         srv.armed_at = srv.calls
+        detached: List[_H] = []  # holders whose fairy was detached: the connection belongs to them, not to the pool
         for k in range(n):
-            al = _alphabet(len(holders), recycle, prof)
+            al = _alphabet(len(holders), recycle, prof, len(detached))
             if k == 0:
                 assume(a0 < len(al))
                 op, w = al[a0]
@@ -285,17 +341,21 @@ def _history(n, prof, pre, pre_ping, recycle, amb, a0, b1, codes, dts, k1, kind1
                 got = None
             elif op == 1:
                 h = holders.pop(w)
-                h.fairy.close()
+                res = _run(h.fairy.close)
+                # (an interrupted release: the caller's stack unwinds and the fairy is garbage)
+                h = _abandon(h)
             elif op == 2:
                 h = holders.pop(w)
-                h.fairy.invalidate()
-                if srv.state[h.conn.id] != "closed":
+                res = _run(h.fairy.invalidate)
+                if res == "ok" and srv.state[h.conn.id] != "closed":
                     return _no("invalidate:connection-not-closed")
+                h = _abandon(h)
             elif op == 3:
                 h = holders[w]
                 if h.fairy.dbapi_connection is not None:
-                    h.fairy.invalidate(soft=True)
+                    res = _run(lambda: h.fairy.invalidate(soft=True))
                     soft_inv.append(h.conn.id)
+                h = None
             elif op == 4:
                 # what Connection._handle_dbapi_exception does on a disconnect: Pool._invalidate(fairy, e), which
                 # moves the pool-wide invalidation instant unless the connection predates the last one, and
@@ -305,16 +365,20 @@ def _history(n, prof, pre, pre_ping, recycle, amb, a0, b1, codes, dts, k1, kind1
                 # timestamp til now; otherwise no action" -- the last invalidation may be an internal one (pre-ping)
                 if h.gen == srv.cur_gen and max(stale_before, pools[h.gen]._invalidate_time) < srv.t_open[h.conn.id]:
                     stale_before = clock.now + 1  # the stub clock's value inside Pool._invalidate
-                pools[h.gen]._invalidate(h.fairy, fakedb.OperationalError("fake: disconnect"))
-                if srv.state[h.conn.id] != "closed":
+                res = _run(lambda: pools[h.gen]._invalidate(h.fairy, fakedb.OperationalError("fake: disconnect")))
+                if res == "ok" and srv.state[h.conn.id] != "closed":
                     return _no("pool_invalidate:connection-not-closed")
+                h = _abandon(h)
             elif op == 5:
-                if not [h for h in holders if h.gen == srv.cur_gen]:
-                    clean_at_dispose.append(srv.cur_gen)
-                eng.dispose()
-                srv.cur_gen += 1
-                pools.append(eng.pool)
-                stale_before = 0
+                clean = not [h for h in holders if h.gen == srv.cur_gen]
+                res = _run(eng.dispose)
+                h = None
+                if eng.pool is not pools[-1]:
+                    if clean:
+                        clean_at_dispose.append(srv.cur_gen)
+                    srv.cur_gen += 1
+                    pools.append(eng.pool)
+                    stale_before = 0
             elif op == 6:
                 d = dts[k]
                 if d < 0:
@@ -323,14 +387,25 @@ def _history(n, prof, pre, pre_ping, recycle, amb, a0, b1, codes, dts, k1, kind1
                     d = recycle + 1
                 clock.now += d
             elif op == 7:
+                h = _abandon(holders.pop(w))
+            elif op == 9:
+                # fairy.detach(): the pool slot is given back (empty record), the DBAPI connection stays with the holder
                 h = holders.pop(w)
-                r = weakref.ref(h.fairy)
-                h.fairy = None
+                res = _run(h.fairy.detach)
+                if res != "ok" or h.fairy._connection_record is not None or h.fairy.dbapi_connection is not h.conn or h.conn.closed:
+                    return _no("detach:fairy-state")
+                srv.state[h.conn.id] = "detached"
+                detached.append(h)
                 h = None
-                if r() is not None:
-                    gc.collect()
-                if r() is not None:
-                    r().close()  # something else keeps it alive: release it the ordinary way
+            elif op == 10:
+                # Pool._invalidate(connection without a pool record, exc): "mark all connections established within the
+                # generation of the given connection as invalidated" -- nothing is known about its generation, so the
+                # pool-wide invalidation instant must advance: no connection that is idle now may be handed out later
+                h = detached.pop(w)
+                if h.gen == srv.cur_gen:
+                    stale_before = clock.now + 1
+                res = _run(lambda: pools[h.gen]._invalidate(h.fairy, fakedb.OperationalError("fake: disconnect")))
+                h = None
             else:
                 srv.restart()
             # ... but never corrupt the counters
@@ -339,7 +414,12 @@ def _history(n, prof, pre, pre_ping, recycle, amb, a0, b1, codes, dts, k1, kind1
         # every holder releases its connection
         while holders:
             h = holders.pop()
-            h.fairy.close()
+            res = _run(h.fairy.close)
+            h = _abandon(h)
+        while detached:
+            h = detached.pop()
+            res = _run(h.fairy.close)
+            h = None
         if not _counters_ok(eng, pools, srv, holders):
             return False
         if eng.pool.checkedout() != 0:
@@ -350,14 +430,16 @@ def _history(n, prof, pre, pre_ping, recycle, amb, a0, b1, codes, dts, k1, kind1
         return native(lambda: _ledger_ok(srv, pools))
     finally:
         pool_base.time = saved_time
+        _LASTLOG[:] = [list(x) for x in srv.oplog]
         # no symbolic value may be touched by a finalizer running after the path
         srv.k1 = srv.k2 = 0
-        srv.kind1 = srv.kind2 = False
+        srv.kind1 = srv.kind2 = 0
         clock.now = clock.last = 0
         for h in holders:
             try:
-                h.fairy.close()
-            except Exception:
+                if h.fairy is not None:
+                    h.fairy.close()
+            except BaseException:
                 pass
 
 
@@ -372,11 +454,11 @@ def _ledger_ok(srv: _Srv, pools) -> bool:
             if idle[i] is idle[j]:
                 return _no("ledger:connection-idle-twice")
     for c in idle:
-        if srv.state[c.id] != "open":
+        if _unusable(srv, c):
             return _no("ledger:closed-connection-idle-in-pool")
     collected = False
     for cid in range(len(srv.state)):
-        if srv.state[cid] == "open":
+        if srv.state[cid] == "open":  # ("detached" connections belong to their holder, not to the pool)
             c = srv.refs[cid]()
             if c is not None and any(x is c for x in idle):
                 continue
@@ -401,18 +483,18 @@ def _flush():
 
 
 def h_pool1(n: int, prof: int, pre: int, pre_ping: bool, recycle: int, amb: int, a0: int, b1: int, c1: int, c2: int,
-            d0: int, d1: int, d2: int, k1: int, kind1: bool) -> bool:
+            d0: int, d1: int, d2: int, k1: int, kind1: int) -> bool:
     """<= 3 operations (first = alphabet entry a0, second in chunk b1: slicing only), <= 1 fault: the k1-th DBAPI
-    call raises (k1 beyond the last call = no fault); kind1 True = disconnect, False = ordinary error."""
+    call raises (k1 beyond the last call = no fault); kind1 <=0 ordinary error, 1 disconnect, >=2 BaseException."""
     assume(k1 >= 1)
     try:
-        return _history(n, prof, pre, pre_ping, recycle, amb, a0, b1, [c1, c2], [d0, d1, d2], k1, kind1, 0, False)
+        return _history(n, prof, pre, pre_ping, recycle, amb, a0, b1, [c1, c2], [d0, d1, d2], k1, kind1, 0, 0)
     finally:
         native(_flush)
 
 
 def h_pool2(n: int, prof: int, pre: int, pre_ping: bool, recycle: int, amb: int, a0: int, b1: int, c1: int, c2: int,
-            d0: int, d1: int, d2: int, k1: int, kind1: bool, k2: int, kind2: bool) -> bool:
+            d0: int, d1: int, d2: int, k1: int, kind1: int, k2: int, kind2: int) -> bool:
     """<= 3 operations, <= 2 faults (k1 < k2)."""
     assume(1 <= k1 < k2)
     try:
@@ -422,7 +504,7 @@ def h_pool2(n: int, prof: int, pre: int, pre_ping: bool, recycle: int, amb: int,
 
 
 def h_pool2_long(n: int, prof: int, pre: int, pre_ping: bool, recycle: int, amb: int, a0: int, b1: int, c1: int, c2: int, c3: int,
-                 c4: int, d0: int, d1: int, d2: int, d3: int, d4: int, k1: int, kind1: bool, k2: int, kind2: bool) -> bool:
+                 c4: int, d0: int, d1: int, d2: int, d3: int, d4: int, k1: int, kind1: int, k2: int, kind2: int) -> bool:
     """<= 5 operations, <= 2 faults."""
     assume(1 <= k1 < k2)
     try:
@@ -432,11 +514,11 @@ def h_pool2_long(n: int, prof: int, pre: int, pre_ping: bool, recycle: int, amb:
 
 
 def h_pool1_long(n: int, prof: int, pre: int, pre_ping: bool, recycle: int, amb: int, a0: int, b1: int, c1: int, c2: int, c3: int,
-                 c4: int, d0: int, d1: int, d2: int, d3: int, d4: int, k1: int, kind1: bool) -> bool:
+                 c4: int, d0: int, d1: int, d2: int, d3: int, d4: int, k1: int, kind1: int) -> bool:
     """<= 5 operations, <= 1 fault."""
     assume(k1 >= 1)
     try:
-        return _history(n, prof, pre, pre_ping, recycle, amb, a0, b1, [c1, c2, c3, c4], [d0, d1, d2, d3, d4], k1, kind1, 0, False)
+        return _history(n, prof, pre, pre_ping, recycle, amb, a0, b1, [c1, c2, c3, c4], [d0, d1, d2, d3, d4], k1, kind1, 0, 0)
     finally:
         native(_flush)
 
@@ -461,7 +543,7 @@ META = {
                   "history": "cold: <=2 operations/1 fault, 1 operation/2 faults; warm pre-states: <=2 operations with <=2 faults (all 4 configurations; "
                              "2 operations/2 faults only from the pre-states with a live checkout), "
                              "3 operations with <=1 fault for (pre_ping, recycle) in {(True,-1),(False,2)}; every run ends with all holders releasing",
-                  "operations": OPNAMES, "fault kinds": ["disconnect (connection dead afterwards)", "ordinary DBAPI error"],
+                  "operations": OPNAMES, "fault kinds": ["ordinary DBAPI error", "disconnect (connection dead afterwards)", "a BaseException that is not an Exception (KeyboardInterrupt subclass)"],
                   "fault position": "any DBAPI call after the pre-state (symbolic call number), including the final release of all holders",
                   "clock": "frozen between operations (amb=0) or +1 per time() call (amb=1: 1 operation, and 2 operations from pre-state idle+checkout); tick amount symbolic in 0..pool_recycle+1"},
         "thorough": {"history": "cold: <=3 operations/1 fault, <=2 operations/2 faults; warm pre-states: <=3 operations/1 fault and <=2 operations/2 faults for all 4 "
@@ -525,8 +607,9 @@ def _decode(args):
     codes = [args.get("c%d" % i) for i in range(1, 5)]
     out = []
     nh = 1 if args.get("pre", 0) >= 2 else 0
+    nd = 0
     for k in range(n):
-        al = _alphabet(nh, args["recycle"], args["prof"])
+        al = _alphabet(nh, args["recycle"], args["prof"], nd)
         if k == 0:
             if args["a0"] >= len(al):
                 break
@@ -544,6 +627,10 @@ def _decode(args):
             nh += 1
         elif op in (1, 2, 4, 7) and nh > 0:
             nh -= 1
+        elif op == 9 and nh > 0:
+            nh, nd = nh - 1, nd + 1
+        elif op == 10 and nd > 0:
+            nd -= 1
     return out
 
 
@@ -561,12 +648,25 @@ def classify(hname, args, rep):
         ops = _decode(args)
     except Exception:
         ops = []
-    names = ["%s(%d)" % (OPNAMES[o], w) if o in (1, 2, 3, 4, 7) else OPNAMES[o] for (o, w) in ops]
+    names = ["%s(%d)" % (OPNAMES[o], w) if o in (1, 2, 3, 4, 7, 9, 10) else OPNAMES[o] for (o, w) in ops]
     kinds = []
+
+    def kname(v):
+        v = int(v or 0)
+        return "BaseException" if v >= 2 else ("disconnect" if v == 1 else "error")
+
     if args.get("k1"):
-        kinds.append("%s@%s" % ("disconnect" if args.get("kind1") else "error", args.get("k1")))
+        kinds.append("%s@%s" % (kname(args.get("kind1")), args.get("k1")))
     if args.get("k2"):
-        kinds.append("%s@%s" % ("disconnect" if args.get("kind2") else "error", args.get("k2")))
+        kinds.append("%s@%s" % (kname(args.get("kind2")), args.get("k2")))
+    # a failure that needs an injected BaseException (KeyboardInterrupt-like) is its own family of keys
+    if any(k.startswith("BaseException") for k in kinds) and not why.startswith("leak:never-handed-out:connect>rollback!"):
+        bops = sorted(set(o.split("!!")[0] for log in _LASTLOG for o in log if o.endswith("!!")))
+        if "close" in bops or "rollback" in bops:
+            # the interrupt hit a DBAPI call made by the pool's own clean-up code (reset-on-return / close)
+            why = why + ":BaseException-in-cleanup-call"
+        else:
+            why = why + ":BaseException-in-" + ("+".join(bops) or "connect")
     return ("C26:" + why,
             "%s -- pre-state %s, history %s, fault(s) at DBAPI call(s) %s (counted from the end of the pre-state; beyond the last call = no fault), "
             "pre_ping=%s pool_recycle=%s amb=%s"
